@@ -556,7 +556,6 @@ class TxnScenario:
 
     # ---- C07 -----------------------------------------------------------------------------------------
     async def main_c07(self, owner, program):
-        world = self.world
         prod = await self.start_producer(owner, freeze_all=False)
         if prod is None:
             return
@@ -1001,6 +1000,19 @@ def make(params):
     return TxnScenario(params)
 
 
+_BATCH_FN = None
+
+
+def _run_batch(batch):
+    accs = [_BATCH_FN(x) for x in batch]
+    first = accs[0]
+    for acc in accs[1:]:
+        for name, st in acc.sets.items():
+            first.sets.setdefault(name, set()).update(st)
+        acc.sets = {}
+    return accs
+
+
 class DedupAcc(Acc):
     """Accumulator for explore_many: violations are keyed by their discriminating facts only (the scenario name the
     explorer adds is dropped from the signature, the shortest replay is kept), so one defect met in a thousand
@@ -1013,7 +1025,17 @@ class DedupAcc(Acc):
         self.seed = ctx.seed
 
     def pmap(self, fn, shards, merge=True, chunksize=1):
-        return self._ctx.pmap(fn, shards, merge=False, chunksize=chunksize)
+        """Worker tasks are run in batches; inside a batch the (heavily overlapping) digest sets are united before they
+        travel back, which keeps the parent process from becoming the bottleneck."""
+        global _BATCH_FN
+        shards = list(shards)
+        size = max(1, min(64, len(shards) // (self.jobs * 8)))
+        batches = [shards[i:i + size] for i in range(0, len(shards), size)]
+        _BATCH_FN = fn
+        out = []
+        for accs in self._ctx.pmap(_run_batch, batches, merge=False, chunksize=1):
+            out.extend(accs)
+        return out
 
     def merge(self, other):
         vs, other.violations = other.violations, []
